@@ -212,3 +212,47 @@ Proof.
     rewrite Forall_forall in I. apply I. apply in_rev. rewrite Hrev. exact He.
   - apply forallb_forall. intros k _. apply Nat.leb_le. rewrite nchildren_cons. apply Hkids.
 Qed.
+
+(* ---- node identifiers ---------------------------------------------------------------------- *)
+
+Lemma NoDup_map_in {A B} (f : A -> B) (l : list A) :
+  (forall a b, In a l -> In b l -> f a = f b -> a = b) -> NoDup l -> NoDup (map f l).
+Proof.
+  intros Hinj ND. induction ND as [|x r Hx ND IH]; cbn; constructor.
+  - intros Hin. apply in_map_iff in Hin as (y & Ey & Hy).
+    assert (y = x) by (apply Hinj; [now right|now left|exact Ey]). subst. contradiction.
+  - apply IH. intros a b Ha Hb. apply Hinj; now right.
+Qed.
+
+(* the n-ary generator puts every member on exactly one node, so with an injective identifier
+   function (ids are derived from the member's key) node identifiers are pairwise distinct *)
+Theorem nary_ids_distinct n N root l (idf : nat -> nat) :
+  1 <= N -> 1 <= n -> (root = RNil \/ exists k, root = RIdx k /\ k < n) ->
+  (forall a b, idf a = idf b -> a = b) ->
+  gen_nary n N root = GTree l -> NoDup (map fst l) /\ NoDup (map idf (map fst l)).
+Proof.
+  intros HN Hn Hroot Hinj Hl. rewrite nary_shape in Hl by assumption. inversion Hl; subst l. clear Hl.
+  assert (Hr : nary_root root < n) by (destruct Hroot as [->|(k & -> & Hk)]; cbn; lia).
+  set (r := nary_root root) in *.
+  assert (ND : NoDup (map fst (nary_spec n N r))).
+  { assert (E : map fst (nary_spec n N r) = map (fun k => (k + r) mod n) (seq 0 n)).
+    { unfold nary_spec. cbn [map fst]. rewrite map_map. cbn [fst].
+      assert (Es : seq 0 n = 0 :: seq 1 (n - 1)) by (replace n with (S (n - 1)) at 1 by lia; reflexivity).
+      rewrite Es. cbn [map]. f_equal. cbn. symmetry. apply Nat.mod_small. exact Hr. }
+    rewrite E. apply NoDup_map_in; [|apply seq_NoDup].
+    intros a b Ha Hb Hab. apply in_seq in Ha, Hb. apply (rot_inj n r); lia. }
+  split; [exact ND|]. apply NoDup_map_in; [|exact ND].
+  intros a b _ _. apply Hinj.
+Qed.
+
+(* the same for the big generator when the node count equals the roster size *)
+Theorem big_ids_distinct hosts N (idf : nat -> nat) :
+  hosts <> [] -> 1 <= N -> (forall a b, idf a = idf b -> a = b) ->
+  exists l, gen_big hosts N (length hosts) = GTree l /\ NoDup (map fst l) /\ NoDup (map idf (map fst l)).
+Proof.
+  intros Hh HN Hinj. destruct (gen_big_use_all hosts N Hh HN) as (l & Hl & Hp).
+  exists l. split; [exact Hl|].
+  assert (ND : NoDup (map fst l)).
+  { apply (Permutation.Permutation_NoDup (Permutation.Permutation_sym Hp)). apply seq_NoDup. }
+  split; [exact ND|]. apply NoDup_map_in; [|exact ND]. intros a b _ _. apply Hinj.
+Qed.
